@@ -36,16 +36,16 @@ Conflicts(a, b) == a = b \/ \E g \in OverlapGroups : a \in g /\ b \in g
 
 CmdClauses(e) ==
     CASE e.e = "init" ->
-            << <<"C11.init-once", e.inst \notin inited>>,
-               <<"C11.init-before-exec", e.inst \notin execed>> >>
+            << <<"C11.init-once" \o e.site, e.inst \notin inited>>,
+               <<"C11.init-before-exec" \o e.site, e.inst \notin execed>> >>
       [] e.e = "exec" ->
-            << <<"C11.init-before-exec", e.inst \in inited>>,
-               <<"C11.no-exec-after-finalize", e.inst \notin finalized>>,
+            << <<"C11.init-before-exec" \o e.site, e.inst \in inited>>,
+               <<"C11.no-exec-after-finalize" \o e.site, e.inst \notin finalized>>,
                <<"C11.one-instance-per-name-per-tick", \A x \in tickExec : x[1] = e.name => x[2] = e.inst>>,
                <<"C11.no-overlapping-exec-per-tick", \A x \in tickExec : x[1] # e.name => ~Conflicts(x[1], e.name)>> >>
       [] e.e = "finalize" ->
-            << <<"C11.finalize-once", e.inst \notin finalized>>,
-               <<"C11.finalize-needs-init", e.inst \in inited>> >>
+            << <<"C11.finalize-once" \o e.site, e.inst \notin finalized>>,
+               <<"C11.finalize-needs-init" \o e.site, e.inst \in inited>> >>
 
 ReqClauses(e) ==
     << <<"C12.accepted-iff-offered@" \o e.k \o "-" \o e.kind, (e.res = "ok") = e.offered>>,
